@@ -73,8 +73,8 @@ impl Rng {
         self.next_u64() % den < num
     }
 
-    pub fn pick<'a, T>(&mut self, items: &'a [T]) -> &'a T {
-        &items[self.below(items.len())]
+    pub fn pick<T: Clone>(&mut self, items: &[T]) -> T {
+        items[self.below(items.len())].clone()
     }
 
     /// pick an index according to integer weights
